@@ -255,17 +255,42 @@ where
     /// assert!(n1.is_connected(n2.key()));
     /// ```
     pub fn connect(&self, other: &Self, value: E) {
-        self.inner
-            .2
-            .write()
-            .unwrap()
-            .push_outbound((other.clone(), value.clone()));
-        other
-            .inner
-            .2
-            .write()
-            .unwrap()
-            .push_inbound((self.clone(), value));
+        self.with_pair(other, |source, target| {
+            source.push_outbound((other.clone(), value.clone()));
+            match target {
+                Some(target) => target.push_inbound((self.clone(), value)),
+                None => source.push_inbound((self.clone(), value)),
+            }
+        })
+    }
+
+    /// Address of the shared node, used to order lock acquisition.
+    fn addr(&self) -> usize {
+        Arc::as_ptr(&self.inner) as *const () as usize
+    }
+
+    /// Runs `f` with the adjacency lists of `self` and `other` locked for
+    /// writing (`None` for `other` if both are the same node). The lock of
+    /// the node at the lower address is taken first and both are held until
+    /// `f` returns, so operations on two nodes are atomic with respect to
+    /// each other and cannot deadlock.
+    fn with_pair<R>(
+        &self,
+        other: &Self,
+        f: impl FnOnce(&mut Adjacent<K, N, E>, Option<&mut Adjacent<K, N, E>>) -> R,
+    ) -> R {
+        if Arc::ptr_eq(&self.inner, &other.inner) {
+            let mut source = self.inner.2.write().unwrap();
+            f(&mut source, None)
+        } else if self.addr() < other.addr() {
+            let mut source = self.inner.2.write().unwrap();
+            let mut target = other.inner.2.write().unwrap();
+            f(&mut source, Some(&mut target))
+        } else {
+            let mut target = other.inner.2.write().unwrap();
+            let mut source = self.inner.2.write().unwrap();
+            f(&mut source, Some(&mut target))
+        }
     }
 
     /// Connects this node to another node. The connection is created in both
@@ -293,12 +318,17 @@ where
     /// }
     /// ```
     pub fn try_connect(&self, other: &Self, value: E) -> Result<(), Error> {
-        if self.is_connected(other.key()) {
-            Err(Error::EdgeAlreadyExists)
-        } else {
-            self.connect(other, value);
+        self.with_pair(other, |source, target| {
+            if source.find_outbound(other.key()).is_some() {
+                return Err(Error::EdgeAlreadyExists);
+            }
+            source.push_outbound((other.clone(), value.clone()));
+            match target {
+                Some(target) => target.push_inbound((self.clone(), value)),
+                None => source.push_inbound((self.clone(), value)),
+            }
             Ok(())
-        }
+        })
     }
 
     /// Disconnect two nodes from each other. The connection is removed in both
@@ -325,13 +355,16 @@ where
     /// ```
     pub fn disconnect(&self, other: &K) -> Result<E, Error> {
         match self.find_outbound(other) {
-            Some(other) => {
-                // Release the lock of `self` before locking `other`: they are
-                // the same node when the edge is a self-loop.
-                let edge = self.inner.2.write().unwrap().remove_outbound(other.key())?;
-                other.inner.2.write().unwrap().remove_inbound(self.key())?;
+            // The edge may be gone by the time both nodes are locked; then
+            // `remove_outbound` reports it as not found.
+            Some(other) => self.with_pair(&other, |source, target| {
+                let edge = source.remove_outbound(other.key())?;
+                match target {
+                    Some(target) => target.remove_inbound(self.key())?,
+                    None => source.remove_inbound(self.key())?,
+                };
                 Ok(edge)
-            }
+            }),
             None => Err(Error::EdgeNotFound),
         }
     }
@@ -364,24 +397,37 @@ where
     /// assert!(n1.is_orphan());
     /// ```
     pub fn isolate(&self) {
-        for Edge(_, v, _) in self.iter_out() {
-            v.inner
-                .2
-                .write()
-                .unwrap()
-                .remove_inbound(self.key())
+        loop {
+            // Lock this node and all its neighbours, lowest address first.
+            let mut nodes = self.inner.2.read().unwrap().neighbours();
+            nodes.push(self.clone());
+            nodes.sort_by_key(|node| node.addr());
+            nodes.dedup_by_key(|node| node.addr());
+            let mut guards: Vec<_> = nodes
+                .iter()
+                .map(|node| node.inner.2.write().unwrap())
+                .collect();
+            let this = nodes
+                .iter()
+                .position(|node| node.addr() == self.addr())
                 .unwrap();
+            // A neighbour gained since the snapshot is not locked: start over.
+            let complete = guards[this]
+                .neighbours()
+                .iter()
+                .all(|n| nodes.iter().any(|node| node.addr() == n.addr()));
+            if !complete {
+                continue;
+            }
+            for (i, guard) in guards.iter_mut().enumerate() {
+                if i != this {
+                    guard.remove_all(self.key());
+                }
+            }
+            guards[this].clear_outbound();
+            guards[this].clear_inbound();
+            return;
         }
-        for Edge(v, _, _) in self.iter_in() {
-            v.inner
-                .2
-                .write()
-                .unwrap()
-                .remove_outbound(self.key())
-                .unwrap();
-        }
-        self.inner.2.write().unwrap().clear_outbound();
-        self.inner.2.write().unwrap().clear_inbound();
     }
 
     /// Returns true if the node is a root node. Root nodes are nodes that have
